@@ -232,7 +232,19 @@ class World:
         inst, ip = self.objs[int(a)], self.objs[int(b)]
         if tok[0] == 'S' and ip in inst._pins:
             return inst._pins[ip]
-        return sdn.ir.OuterPin.from_instance_and_inner_pin(inst, ip)
+        # proxies are Python objects that callers may keep: two out of three requests for the same (instance, inner pin)
+        # hands back the proxy object built for the previous request (with whatever the earlier call left in it)
+        # instead of a fresh one - the API must not care
+        if not hasattr(self, '_proxies'):
+            self._proxies = {}
+        key = (int(a), int(b))
+        old = self._proxies.get(key)
+        if old is not None and old[1] % 3 != 0 and old[0].instance is inst and old[0].inner_pin is ip:
+            self._proxies[key] = (old[0], old[1] + 1)
+            return old[0]
+        px = sdn.ir.OuterPin.from_instance_and_inner_pin(inst, ip)
+        self._proxies[key] = (px, (old[1] + 1) if old is not None else 1)
+        return px
 
     # ---- op execution ----
     def apply(self, toks):
